@@ -184,7 +184,7 @@ open Scrapli.Gen.PlatformOptions in
 inductive YVal where
   | int (dec : Bytes)            -- decimal text
   | str (s : Bytes)
-  | flt (eighths : Nat)          -- the float n/8 (exactly representable, so seconds→ns is exact)
+  | flt (neg : Bool) (eighths : Nat)   -- the float ±n/8 (exactly representable, so seconds→ns is exact)
   | lst (xs : List Bytes)        -- sequence of strings
   | bool (b : Bool)
   | null
@@ -194,7 +194,7 @@ inductive YVal where
 def YVal.goType : YVal → String
   | .int _ => "int"
   | .str _ => "string"
-  | .flt _ => "float64"
+  | .flt _ _ => "float64"
   | .lst _ => "[]interface{}"
   | .bool _ => "bool"
   | .null => "<nil>"
@@ -210,10 +210,10 @@ def documentedGoType (d : String) : Option String :=
 open Scrapli.Gen.PlatformOptions in
 def renderY (v : YVal) (conv : Conv) : Val :=
   match v, conv with
-  | .flt n, .seconds => [decDigits (n * 125000000)]
+  | .flt neg n, .seconds => [(if neg && n != 0 then [45] else []) ++ decDigits (n * 125000000)]
   | .int d, _ => [d]
   | .str s, _ => [s]
-  | .flt n, _ => [decDigits n]
+  | .flt neg n, _ => [(if neg then [45] else []) ++ decDigits n]
   | .lst xs, _ => xs
   | .bool b, _ => [if b then tokTrue else [102,97,108,115,101]]
   | .null, _ => []
